@@ -38,6 +38,10 @@ ReplayInit == Init /\ hasCmds = TRUE /\ viz = FALSE
 FreshInit == Init /\ hasCmds = FALSE /\ hasEvents = FALSE /\ viz = FALSE
 FreshSpec == FreshInit /\ [][Next]_vars
 ReplaySpec == ReplayInit /\ [][Next]_vars
+\* ... and one family starts with the dependency visualisation ON (the two graph files belong to every generation, so
+\* their loss is one environment step away)
+VizInit == Init /\ hasCmds = TRUE /\ viz = TRUE
+VizSpec == VizInit /\ [][Next]_vars
 
 \* C17: fault plans.  A first run or a run after an output-changing edit is hit by exactly one
 \* fault; recovery runs follow.
